@@ -103,14 +103,15 @@ def entries_in_order(f):
 
 def spec_valid(case) -> bool:
     """The statement's criterion, independent of the iteration order."""
-    any_file = False
+    any_file = bool(case["codenames"])
     for cn in case["codenames"]:
         sizes, hashes = {}, {}
+        if cn.get("InRelease") is None and cn.get("Release") is None:
+            return False   # a configured codename without any release file
         for which in ("InRelease", "Release"):
             f = cn.get(which)
             if f is None:
                 continue
-            any_file = True
             for n, s, t, h in entries_in_order(f):
                 if s <= 0 or n in ("InRelease", "Release", "Release.gpg"):
                     continue
